@@ -458,7 +458,21 @@ func c09(c *Ctx) {
 					fresh = false
 				}
 			}
-			r.Check(fresh && len(srcs) > 0, "R09.C", "fresh-channel:sendPacket", c.pos(cs.Pos()), "the channel registered for the request comes from: "+strings.Join(srcs, " | ")+" — a shared channel in the table receives other requests' notifications and is never removed")
+			// one obligation per source that is not a make(chan) of this call, keyed by the source: the known shared
+			// service channel does not cover a channel that comes from anywhere else (a pool, a cache, a field)
+			if fresh && len(srcs) > 0 {
+				r.Hold("R09.C", "fresh-channel:sendPacket", c.pos(cs.Pos()), "the channel registered for the request comes from: "+strings.Join(srcs, " | "))
+			} else if len(srcs) == 0 {
+				r.Violate("R09.C", "fresh-channel:sendPacket", c.pos(cs.Pos()), "the channel registered for the request has no recognisable source")
+			}
+			seenSrc := map[string]bool{}
+			for _, sname := range srcs {
+				if strings.HasPrefix(sname, "makechan:") || seenSrc[sname] {
+					continue
+				}
+				seenSrc[sname] = true
+				r.Violate("R09.C", "fresh-channel:sendPacket/"+strings.ReplaceAll(sname, " ", "_"), c.pos(cs.Pos()), "the channel registered for the request comes from "+sname+" (all sources: "+strings.Join(srcs, " | ")+") — a channel that is not made for this call receives other requests' answers and notifications")
+			}
 		}
 	}
 }
